@@ -68,7 +68,7 @@ class C10(PropBase):
     corr_fields = ['ais', 'threat', 'selalt', 'baro', 'tasrc', 'roll', 'track', 'tar', 'gs', 'tas', 'hdg', 'ias', 'mach', 'vrate', 'cap0', 'cap1', 'b50age', 'trs', 'vrs', 'hds', 'turn']
     lean_modules = ["SqModel.Props.C10", "SqModel.Props.C10b", "SqModel.Proofs.Dispatch", "SqModel.Proofs.Bridge", "SqModel.Proofs.BridgeRat", "SqModel.Proofs.BridgePlane"]
     extractors = ["dispatch", "trans"]
-    rule = ("histories per aircraft (three in eight of them begin with a data reply, so that a Comm-B frame creates the row) of DF11 (CA 0..7), BDS 1,7 reports advertising random subsets of 4,0/5,0/6,0, and data "
+    rule = ("histories per aircraft (with DF18 frames of the same address and DF17 squitters announcing a capability in between; three in eight of them begin with a data reply, so that a Comm-B frame creates the row) of DF11 (CA 0..7), BDS 1,7 reports advertising random subsets of 4,0/5,0/6,0, and data "
             "replies (DF20 and DF21) whose MB is a BDS 4,0 / 5,0 / 6,0 register generated from physical values over the full "
             "range and both signs, every plausibility boundary +-1 LSB, registers with one status bit cleared / a reserved bit "
             "set / a zero field, and random MB fields; -R and -U on/off. After each reply the 14 Comm-B-derived row fields are "
@@ -149,6 +149,13 @@ class C10(PropBase):
                 if i == len(mbs) * 3 // 4:
                     ca2 = rng.randrange(8)
                     seq.append(("ca", F.df11(ca2, a, 0), ca2))
+                if rng.random() < 0.25:
+                    # a DF18 frame (non-transponder ADS-B / TIS-B) with the same 24-bit address: its CF field sits where a DF17 has
+                    # CA, but it is not a transponder capability and must neither open nor close the Comm-B gate
+                    seq.append(("df18", F.df17(rng.randrange(8), a, F.me_raw(rng.choice([0, 23, 24, 25, 26, 27, 30]), rng.randrange(1 << 51)), df=18), None))
+                elif rng.random() < 0.1:
+                    ca3 = rng.randrange(8)        # an extended squitter announces the capability too
+                    seq.append(("ca", F.df17(ca3, a, F.me_raw(rng.choice([0, 23, 24, 25, 26, 27, 30]), rng.randrange(1 << 51))), ca3))
                 fr = F.df20(0, 0, 0, F.ac13_q1(500), mb, a) if rng.random() < 0.5 else F.df21(0, 0, 0, 0o1234, mb, a)
                 seq.append((kind, fr, mb))
             # a reference row created by a DF11: its Comm-B fields are the blank state
@@ -175,6 +182,14 @@ class C10(PropBase):
                     continue
                 if kind == "ca":
                     cap = mb
+                    prev = row
+                    continue
+                if kind == "df18":
+                    changed = [k for k in EHS if prev is not None and row.get(k) != prev.get(k)]
+                    if changed:
+                        self.fail(rep, f"DF18 frame {fr} changed the Comm-B fields {changed}",
+                                  {"ops": ["reset", gen.cfg_op(relaxed=relaxed, use_update=u, delete_after=600)] + sum([gen.seg([f]) for _, f, _ in seq[:i + 1]], []) + ["dump"]})
+                        return
                     prev = row
                     continue
                 outer = relaxed or (cap is not None and cap >= 4)
